@@ -67,6 +67,10 @@ func (propC10) Gen(r *Rng, run uint64, tier string) *Plan {
 		Msg: "const", AllNamed: true, NoHuge: true, OffSecond: true, Labels: "prefix"}
 	if r.Bool(0.2) {
 		spec.Msg = "token"
+		if r.Bool(0.3) {
+			// many distinct series
+			spec.RecMax = 120
+		}
 	}
 	pipe := ""
 	if r.Bool(0.2) {
